@@ -144,29 +144,7 @@ def compare_reference(cfg: EnvCfg, ref: Reference, env, gi: int, R: frozenset, s
     return None
 
 
-def deep_digest(x, depth: int = 0, seen: set | None = None):
-    """Identity-free canonical form of an object graph (pickle bytes depend on object sharing, this does not)."""
-    if depth > 6:
-        return "..."
-    if isinstance(x, np.ndarray):
-        a = x + 0.0 if x.dtype.kind == "f" else x
-        return ("nd", str(x.dtype), x.shape, a.tobytes() if x.dtype != object else tuple(deep_digest(e, depth + 1) for e in x.ravel()))
-    if isinstance(x, (np.generic,)):
-        return ("np", repr(x.item() + 0.0 if isinstance(x, np.floating) else x.item()))
-    if isinstance(x, (int, float, str, bool, bytes, type(None))):
-        return repr(x + 0.0) if isinstance(x, float) else repr(x)
-    if isinstance(x, dict):
-        return ("dict", tuple(sorted((repr(k), deep_digest(v, depth + 1)) for k, v in x.items())))
-    if isinstance(x, (list, tuple)):
-        return (type(x).__name__, tuple(deep_digest(e, depth + 1) for e in x))
-    if isinstance(x, (set, frozenset)):
-        return ("set", tuple(sorted(repr(deep_digest(e, depth + 1)) for e in x)))
-    if callable(x) and not hasattr(x, "__dict__"):
-        return ("callable", getattr(x, "__qualname__", type(x).__name__))
-    d = getattr(x, "__dict__", None)
-    if d is not None:
-        return (type(x).__name__, deep_digest({k: v for k, v in d.items() if not callable(v) or hasattr(v, "__dict__")}, depth + 1))
-    return ("obj", type(x).__name__)
+from .digest import deep_digest  # noqa: E402,F401
 
 
 SKIP_ATTRS = ("generator", "gap_func", "observation_space", "action_space", "spec", "metadata", "_np_random", "render_mode")
